@@ -370,6 +370,11 @@ def directed_calls():
     for op in ("add", "multiply", "maximum", "minimum", "logical_and", "logaddexp"):
         yield {"op": op, "family": "elementwise", "desc": "a b, b, a -> a b", "shapes": [(2, 3), (3,), (2,)], "kwargs": {}, "note": ["directed", "three-operands"]}
         yield {"op": op, "family": "elementwise", "desc": "a b, b, a, b a -> b a", "shapes": [(2, 3), (3,), (2,), (3, 2)], "kwargs": {}, "note": ["directed", "four-operands"]}
+    for desc, shapes, kw in [("a b, b, a -> a b", [(2, 3), (3,), (2,)], {}), ("a e c, e c, c e a -> e a c", [(2, 3, 4), (3, 4), (4, 3, 2)], {}),
+                             ("e,, e -> e", [(2,), (), (2,)], {}), ("(d e) b, ((e d)), b -> d b e", [(8, 4), (8,), (4,)], {"d": 2, "e": 4}),
+                             ("a b, b, a, b a -> b a", [(2, 3), (3,), (2,), (3, 2)], {})]:
+        # an n-ary product on the einsum backend is ONE einsum call (the plan folds the factors from the left, like the denotation)
+        yield {"op": "multiply", "family": "elementwise", "desc": desc, "shapes": shapes, "kwargs": kw, "note": ["directed", "nary-einsum"], "backend": "numpy.einsum"}
     # get_at: several coordinate tensors, leading / trailing / absent coordinate axis, vectorised axes on both sides
     for desc, shapes, bounds, pos in [("[h w] c, p, p -> p c", [(3, 4, 2), (5,), (5,)], [3, 4], None),
                                       ("b [h] c, b p -> b p c", [(2, 3, 2), (2, 4)], [3], None),
